@@ -205,3 +205,41 @@ def date_models():
             conv[kk] = int(v) if isinstance(v, float) and float(v).is_integer() else v
         return RelDelta(**conv)
     return {'ext:dateutil.relativedelta.relativedelta': relativedelta}
+
+
+# ------------------------------------------------------------------------------------------------------------
+# openpyxl.utils.cell: pure address arithmetic, documented behaviour
+# ------------------------------------------------------------------------------------------------------------
+def openpyxl_models():
+    import re as _re
+
+    def col(c):
+        n = 0
+        for ch in c.upper():
+            if not 'A' <= ch <= 'Z':
+                raise ExcRaised(Ref('builtin:ValueError'))
+            n = n * 26 + ord(ch) - 64
+        if not 1 <= n <= 18278:
+            raise ExcRaised(Ref('builtin:ValueError'))
+        return n
+
+    def range_boundaries(text):
+        m = _re.fullmatch(r'\$?([A-Za-z]{1,3})\$?(\d+)(?::\$?([A-Za-z]{1,3})\$?(\d+))?', text)
+        if not m:
+            raise Unmodelled(f'range_boundaries model: {text!r}')
+        c1, r1, c2, r2 = m.group(1), int(m.group(2)), m.group(3) or m.group(1), int(m.group(4) or m.group(2))
+        return (col(c1), r1, col(c2), r2)
+
+    def letter(n):
+        if not isinstance(n, int) or not 1 <= n <= 18278:
+            raise ExcRaised(Ref('builtin:ValueError'))
+        out = ''
+        while n:
+            n, r = divmod(n - 1, 26)
+            out = chr(65 + r) + out
+        return out
+    return {
+        'ext:openpyxl.utils.cell.range_boundaries': range_boundaries,
+        'ext:openpyxl.utils.cell.get_column_letter': letter,
+        'ext:openpyxl.utils.cell.column_index_from_string': col,
+    }
